@@ -10,14 +10,18 @@ import (
 	"crypto/rsa"
 	"crypto/sha256"
 	"crypto/sha512"
+	"encoding/base64"
 	"fmt"
 	"math/big"
+	"strings"
 	"testing"
 
 	"pgregory.net/rapid"
 
 	"github.com/tink-crypto/tink-go/v2/internal/internalapi"
 	icomp "github.com/tink-crypto/tink-go/v2/internal/signature/compositemldsa"
+	"github.com/tink-crypto/tink-go/v2/jwt"
+	"github.com/tink-crypto/tink-go/v2/jwt/jwtmldsa"
 	"github.com/tink-crypto/tink-go/v2/key"
 	"github.com/tink-crypto/tink-go/v2/keyset"
 	"github.com/tink-crypto/tink-go/v2/signature"
@@ -228,7 +232,11 @@ func TestTinkMLDSA(t *testing.T) {
 		try("other-message/"+mm.Kind, sig, mm.Out)
 		sm := gen.Mutate(rt, "sigmut", sig)
 		try("sig-"+sm.Kind, sm.Out, msg)
-		// a key with the same seed under another parameter set / another seed does not verify it
+		hv, hk := hintVariants(rt, p, raw)
+		for i := range hv {
+			try(hk[i], withPrefix(c.prefix, hv[i]), msg)
+		}
+		// a key from another seed does not verify it
 		seed2 := gen.BytesN(rt, "seed2", 32)
 		if !bytes.Equal(seed2, c.seed) {
 			c2 := newAPICase(rt, c.ps, c.variant, c.id, "key", seed2)
@@ -723,5 +731,118 @@ func TestComposite(t *testing.T) {
 			evid.NewH().S(ps.name).S(cs.name).S(variant).I(int64(id)).S(route).B(seed).S(ck.desc).B(msg).B(rnd).S(mlKind).S(clKind).Sum(), func() any {
 				return map[string]any{"case": desc, "msg": gen.Hex(msg), "rnd": fullHex(rnd), "entropy": entropy, "broken": mlKind + "/" + clKind, "candidates": n, "accepted": acc, "sig": hashHex(sig)}
 			})
+	})
+}
+
+// ---- L5: jwt with ML-DSA keys --------------------------------------------------------------------
+
+// TestJWTMLDSA: the signature of a compact JWT made with a JWT ML-DSA key is a FIPS 204 signature (empty
+// context) over "header.payload", and the JWT verifier accepts a token with that header and payload
+// exactly when the reference accepts its signature part.
+func TestJWTMLDSA(t *testing.T) {
+	algs := []jwtmldsa.Algorithm{jwtmldsa.MLDSA44, jwtmldsa.MLDSA65, jwtmldsa.MLDSA87}
+	rapid.Check(t, func(rt *rapid.T) {
+		entropy := rapid.Uint64().Draw(rt, "entropy")
+		detrand.Seed(entropy)
+		pi := rapid.IntRange(0, 2).Draw(rt, "pset")
+		ps, alg := psets[pi], algs[pi]
+		p := ps.ref
+		strategy := rapid.SampledFrom([]jwtmldsa.KIDStrategy{jwtmldsa.Base64EncodedKeyIDAsKID, jwtmldsa.IgnoredKID}).Draw(rt, "kid")
+		id := gen.KeyID(rt, "id")
+		if strategy == jwtmldsa.IgnoredKID {
+			id = 0
+		}
+		seed := gen.BytesN(rt, "seed", 32)
+		subject := rapid.StringMatching(`[a-zA-Z0-9 ]{0,40}`).Draw(rt, "subject")
+		desc := fmt.Sprintf("jwt %s kid-strategy=%v id=%#x seed=%s subject=%q", ps.name, strategy, id, fullHex(seed), subject)
+		pkRef, skRef := mldsaref.KeyGenInternal(p, arr32(seed))
+		params, err := jwtmldsa.NewParameters(strategy, alg)
+		if err != nil {
+			rt.Fatalf("%s: NewParameters: %v", desc, err)
+		}
+		pub, err := jwtmldsa.NewPublicKey(jwtmldsa.PublicKeyOpts{KeyBytes: pkRef, IDRequirement: id, Parameters: params})
+		if err != nil {
+			rt.Fatalf("%s: NewPublicKey(reference public key): %v", desc, err)
+		}
+		priv, err := jwtmldsa.NewPrivateKeyFromPublicKey(tk.Secret(seed), pub)
+		if err != nil {
+			rt.Fatalf("%s: NewPrivateKeyFromPublicKey (seed and reference public key): %v", desc, err)
+		}
+		h, err := tk.HandleFromKey(priv)
+		if err != nil {
+			rt.Fatalf("%s: handle: %v", desc, err)
+		}
+		ph, err := h.Public()
+		if err != nil {
+			rt.Fatalf("%s: Public(): %v", desc, err)
+		}
+		signer, err := jwt.NewSigner(h)
+		if err != nil {
+			rt.Fatalf("%s: jwt.NewSigner: %v", desc, err)
+		}
+		verifier, err := jwt.NewVerifier(ph)
+		if err != nil {
+			rt.Fatalf("%s: jwt.NewVerifier: %v", desc, err)
+		}
+		raw, err := jwt.NewRawJWT(&jwt.RawJWTOptions{Subject: &subject, WithoutExpiration: true})
+		if err != nil {
+			rt.Fatalf("%s: NewRawJWT: %v", desc, err)
+		}
+		validator, err := jwt.NewValidator(&jwt.ValidatorOpts{AllowMissingExpiration: true})
+		if err != nil {
+			rt.Fatalf("%s: NewValidator: %v", desc, err)
+		}
+		detrand.Seed(entropy)
+		compact, err := signer.SignAndEncode(raw)
+		if err != nil {
+			rt.Fatalf("%s: SignAndEncode: %v", desc, err)
+		}
+		parts := strings.Split(compact, ".")
+		if len(parts) != 3 {
+			rt.Fatalf("%s: compact token has %d parts: %s", desc, len(parts), compact)
+		}
+		input := parts[0] + "." + parts[1]
+		sig, err := base64.RawURLEncoding.DecodeString(parts[2])
+		if err != nil {
+			rt.Fatalf("%s: signature part is not unpadded base64url: %v\ntoken = %s", desc, err, compact)
+		}
+		if !mldsaref.Verify(p, pkRef, []byte(input), nil, sig) {
+			rt.Fatalf("%s: signature part of the token does not verify under the reference over %q (empty ctx)\ntoken = %s", desc, input, compact)
+		}
+		n := 0
+		try := func(kind string, s []byte) bool {
+			n++
+			want := mldsaref.Verify(p, pkRef, []byte(input), nil, s)
+			tok := input + "." + base64.RawURLEncoding.EncodeToString(s)
+			var verr error
+			_, pan := noPanic(func() error { _, verr = verifier.VerifyAndDecode(tok, validator); return verr })
+			if pan != nil {
+				rt.Fatalf("%s: candidate kind=%s: VerifyAndDecode PANICS: %v\ntoken = %s", desc, kind, pan, tok)
+			}
+			if (verr == nil) != want {
+				rt.Fatalf("%s: candidate kind=%s: VerifyAndDecode err=%v, reference Verify of the signature part = %v\ntoken = %s", desc, kind, verr, want, tok)
+			}
+			return want
+		}
+		if !try("own", sig) {
+			rt.Fatalf("harness: unreachable")
+		}
+		rnd := gen.BytesN(rt, "rnd", 32)
+		refSig, _ := mldsaref.Sign(p, skRef, []byte(input), nil, arr32(rnd))
+		try("reference-made", refSig)
+		try("flip", flipBit(refSig, rapid.IntRange(0, 8*len(refSig)-1).Draw(rt, "bit")))
+		try("truncated", refSig[:len(refSig)-1])
+		otherInput, _ := mldsaref.Sign(p, skRef, []byte(parts[0]+"."+parts[1]+"x"), nil, arr32(rnd))
+		try("signature-of-other-input", otherInput)
+		withCtx, _ := mldsaref.Sign(p, skRef, []byte(input), []byte("jwt"), arr32(rnd))
+		try("non-empty-ctx", withCtx)
+		hv, hk := hintVariants(rt, p, refSig)
+		for i := range hv {
+			try(hk[i], hv[i])
+		}
+		evid.Add("verify_candidates", int64(n))
+		evid.Case(fmt.Sprintf("%s/%v", ps.name, strategy), true, evid.NewH().S(ps.name).I(int64(strategy)).I(int64(id)).B(seed).S(subject).B(rnd).Sum(), func() any {
+			return map[string]any{"case": desc, "token": gen.Hex([]byte(compact)), "entropy": entropy, "candidates": n}
+		})
 	})
 }
